@@ -223,4 +223,90 @@ FaultProgram(k, c, pre) ==
              \o <<x[2], Var("s"), Call("one", <<Num(7)>>), Bump, Var("s")>>,
    tag |-> <<"fault", k, c, pre>>]
 FaultFamily == {FaultProgram(k, c, pre) : k \in FaultKinds, c \in FaultContexts, pre \in {0, 1}}
+
+----------------------------------------------------------------------------
+(* C02: loops whose recursive call sits in a tail context.  A context wraps the call; contexts
+   compose.  Loop shapes: self, 2- and 3-way mutual, through a procedure parameter, variadic,
+   closure-returned; the call itself is written directly or through apply. *)
+TailContexts == <<"body", "ifa", "ifb", "begin", "let", "letstar", "condclause", "condelse", "condarrow",
+                  "caseclause", "caseelse", "and", "or", "when", "unless">>
+TailCtxSet == {TailContexts[i] : i \in DOMAIN TailContexts}
+Wrap(c, e) ==
+  CASE c = "body"       -> e
+    [] c = "ifa"        -> If3(Lit(True), e, Num(-1))
+    [] c = "ifb"        -> If3(Lit(False), Num(-1), e)
+    [] c = "begin"      -> Begin(<<Num(0), e>>)
+    [] c = "let"        -> Let(<<B("q", Num(1))>>, <<e>>)
+    [] c = "letstar"    -> LetStar(<<B("q", Num(1)), B("r", Var("q"))>>, <<e>>)
+    [] c = "condclause" -> Cond(<<Clause(Lit(False), <<Num(-1)>>), Clause(Lit(True), <<Num(0), e>>)>>)
+    [] c = "condelse"   -> CondElse(<<Clause(Lit(False), <<Num(-1)>>)>>, <<e>>)
+    [] c = "condarrow"  -> CondElse(<<ArrowClause(Num(1), Fn(<<"ignored">>, <<e>>))>>, <<Num(-1)>>)
+    [] c = "caseclause" -> Case(Num(1), <<CClause(<<MkInt(0)>>, <<Num(-1)>>), CClause(<<MkInt(1), MkInt(2)>>, <<e>>)>>)
+    [] c = "caseelse"   -> CaseElse(Num(1), <<CClause(<<MkInt(0)>>, <<Num(-1)>>)>>, <<e>>)
+    [] c = "and"        -> And(<<Lit(True), Num(1), e>>)
+    [] c = "or"         -> Or(<<Lit(False), e>>)
+    [] c = "when"       -> When(Lit(True), <<Num(0), e>>)
+    [] c = "unless"     -> Unless(Lit(False), <<e>>)
+RECURSIVE WrapAll(_, _)
+WrapAll(cs, e) == IF cs = <<>> THEN e ELSE Wrap(cs[1], WrapAll(Tail(cs), e))   \* cs[1] outermost
+
+CtxSeqs(maxdepth) == UNION {[1..d -> TailCtxSet] : d \in 0..maxdepth}
+TailShapes == {"self", "mutual2", "mutual3", "param", "variadic", "closure"}
+
+\* the call: direct or through apply
+MkCall(viaApply, f, args) == IF viaApply THEN Call("apply", <<f, Call("list", args)>>) ELSE App(f, args)
+\* abs = TRUE: the counter toggles between -1 and -2 and the accumulator stays put, so a loop that
+\* never ends has finitely many machine states (the probe, which logs, is left out as well)
+DecA(abs, i) == IF abs THEN If3(Call("=", <<Var(i), Num(-1)>>), Num(-2), Num(-1)) ELSE Call("-", <<Var(i), Num(1)>>)
+IncA(abs, e) == IF abs THEN e ELSE Call("+", <<e, Num(1)>>)
+Probe(site, i) == Call("probe!", <<Num(site), Var(i)>>)
+\* one loop procedure: (lambda (i acc) (probe! site i) (if (= i 0) acc <call in context>))
+LoopLam(abs, ps, rest, site, stop, accExpr, callExpr) ==
+  Lam(ps, rest, <<>>, (IF abs THEN <<>> ELSE <<Probe(site, "i")>>) \o <<If3(stop, accExpr, callExpr)>>)
+IsZero == Call("=", <<Var("i"), Num(0)>>)
+
+\* forms defining the loop, and the expression that starts it with count n (an expression)
+TailProgram(abs, shape, viaApply, cs, n) ==
+  LET W(e) == WrapAll(cs, e)
+      Dec(i) == DecA(abs, i)
+      Inc(a) == IncA(abs, Var(a))
+  IN
+  CASE shape = "self" ->
+         <<Define("loop", LoopLam(abs, <<"i", "acc">>, "", 1, IsZero, Var("acc"),
+                                  W(MkCall(viaApply, Var("loop"), <<Dec("i"), Inc("acc")>>)))),
+           Call("loop", <<n, Num(0)>>)>>
+    [] shape = "mutual2" ->
+         <<Define("ping", LoopLam(abs, <<"i", "acc">>, "", 1, IsZero, Var("acc"),
+                                  W(MkCall(viaApply, Var("pong"), <<Dec("i"), Inc("acc")>>)))),
+           Define("pong", LoopLam(abs, <<"i", "acc">>, "", 2, IsZero, Var("acc"),
+                                  W(MkCall(viaApply, Var("ping"), <<Dec("i"), Inc("acc")>>)))),
+           Call("ping", <<n, Num(0)>>)>>
+    [] shape = "mutual3" ->
+         <<Define("la", LoopLam(abs, <<"i", "acc">>, "", 1, IsZero, Var("acc"), W(MkCall(viaApply, Var("lb"), <<Dec("i"), Inc("acc")>>)))),
+           Define("lb", LoopLam(abs, <<"i", "acc">>, "", 2, IsZero, Var("acc"), MkCall(FALSE, Var("lc"), <<Dec("i"), Inc("acc")>>))),
+           Define("lc", LoopLam(abs, <<"i", "acc">>, "", 3, IsZero, Var("acc"), W(MkCall(FALSE, Var("la"), <<Dec("i"), Inc("acc")>>)))),
+           Call("la", <<n, Num(0)>>)>>
+    [] shape = "param" ->
+         <<Define("loop", LoopLam(abs, <<"k", "i", "acc">>, "", 1, IsZero, Var("acc"),
+                                  W(MkCall(viaApply, Var("k"), <<Var("k"), Dec("i"), Inc("acc")>>)))),
+           Call("loop", <<Var("loop"), n, Num(0)>>)>>
+    [] shape = "variadic" ->
+         <<Define("loop", LoopLam(abs, <<"i">>, "more", 1, IsZero, Call("car", <<Var("more")>>),
+                                  W(MkCall(viaApply, Var("loop"), <<Dec("i"), IncA(abs, Call("car", <<Var("more")>>)), Num(7)>>)))),
+           Call("loop", <<n, Num(0)>>)>>
+    [] shape = "closure" ->
+         <<Define("make", Lam(<<"step">>, "", <<>>,
+                    <<LoopLam(abs, <<"self", "i", "acc">>, "", 1, IsZero, Var("acc"),
+                              W(MkCall(viaApply, Var("self"), <<Var("self"), Dec("i"), (IF abs THEN Var("acc") ELSE Call("+", <<Var("acc"), Var("step")>>))>>)))>>)),
+           Define("lp", Call("make", <<Num(1)>>)),
+           Call("lp", <<Var("lp"), n, Num(0)>>)>>
+
+\* terminating members (small N): the loop must return N
+TailFinFamily(maxdepth, counts) ==
+  {[forms |-> TailProgram(FALSE, sh, va, cs, Num(n)), tag |-> <<"tail", sh, va, cs, n>>] :
+      sh \in TailShapes, va \in BOOLEAN, cs \in CtxSeqs(maxdepth), n \in counts}
+\* non-terminating members (abstract counter): the reachable state space is the loop itself
+TailInfFamily(maxdepth) ==
+  {[forms |-> TailProgram(TRUE, sh, va, cs, Num(-1)), tag |-> <<"tailinf", sh, va, cs>>] :
+      sh \in TailShapes, va \in BOOLEAN, cs \in CtxSeqs(maxdepth)}
 =============================================================================
